@@ -221,6 +221,17 @@ def expected(shape, rules):
     return SHAPE_DEFAULT[shape]
 
 
+def expected_for(name, default, rules):
+    """the manual's reading for any object: an exact rule wins over patterns, among rules of one sort the LAST given wins, otherwise the default"""
+    for priv, pat in reversed(rules):
+        if pat == name:
+            return priv
+    for priv, pat in reversed(rules):
+        if ref_match(tokens(pat), name):
+            return priv
+    return default
+
+
 def run_privacy(shape, rules, style):
     fn = "mod." + shape
     opts = copy.copy(OPTS)
@@ -238,6 +249,13 @@ def run_privacy(shape, rules, style):
     s.addObject(f)
     f.kind = model.DocumentableKind.FUNCTION
     mod.kind = model.DocumentableKind.MODULE
+    # two more levels: a class in the module and a method of the same name shape in it
+    K = model.Class(s, "K", mod)
+    s.addObject(K)
+    K.kind = model.DocumentableKind.CLASS
+    meth = model.Function(s, shape, K)
+    s.addObject(meth)
+    meth.kind = model.DocumentableKind.METHOD
     want = expected(shape, rules)
     got = s.privacyClass(f).name
     again = f.privacyClass.name
@@ -248,14 +266,29 @@ def run_privacy(shape, rules, style):
     if f.isPrivate != (want != "PUBLIC"):
         note(why="isPrivate", name=fn, want=want)
         return False
+    # every object of the small tree, by the manual's reading computed with the independent matcher; and visibility: an object is
+    # visible exactly when neither it nor any of its ancestors is hidden
+    plain = [(p, KINDS[k][0](fn)) for p, k in rules]
+    objs = [(mod, "mod", "PUBLIC", []), (K, "mod.K", "PUBLIC", [mod]), (f, fn, SHAPE_DEFAULT[shape], [mod]), (meth, "mod.K." + shape, SHAPE_DEFAULT[shape], [mod, K])]
+    exp = {}
+    for o, name, default, _anc in objs:
+        exp[name] = expected_for(name, default, plain)
+        if o.privacyClass.name != exp[name]:
+            note(why="privacy differs from the manual's reading", name=name, rules=plain, got=o.privacyClass.name, want=exp[name])
+            return False
+    for o, name, _d, anc in objs:
+        want_visible = exp[name] != "HIDDEN" and all(exp[a.fullName()] != "HIDDEN" for a in anc)
+        if o.isVisible != want_visible:
+            note(why="visibility: an object is visible exactly when neither it nor an ancestor is hidden", name=name, rules=plain, got=o.isVisible, want=want_visible)
+            return False
     return True
 
 
 @harness(
     parts=lambda: [[s, k] for s in range(len(SHAPES) if THOROUGH else 5) for k in range(-1, len(KINDS))],
     timeout=(200, 1800), cls="F", tracing="concrete-after-choice", twin="first",
-    code=["pydoctor.model.System.privacyClass", "pydoctor.model.Documentable.privacyClass/isPrivate", "pydoctor.options._convert_privacy", "pydoctor.utils.parse_privacy_tuple", "pydoctor.qnmatch.qnmatch (concrete patterns)"],
-    bounds={"quick": "rule lists of <= 3 rules; each rule: privacy in {HIDDEN, PRIVATE, PUBLIC} x 8 pattern kinds (exact name, '**', 'mod.*', '*', 'other.**', one-char-too-long '?', '?' standing for the dot, brackets incl. '[.]'); 5 name shapes (x, _x, __x__, __x, _x__); 3 spellings of the rule string (chosen by the list)",
+    code=["pydoctor.model.System.privacyClass", "pydoctor.model.Documentable.privacyClass/isPrivate/isVisible", "pydoctor.options._convert_privacy", "pydoctor.utils.parse_privacy_tuple", "pydoctor.qnmatch.qnmatch (concrete patterns)"],
+    bounds={"quick": "rule lists of <= 3 rules; each rule: privacy in {HIDDEN, PRIVATE, PUBLIC} x 8 pattern kinds (exact name, '**', 'mod.*', '*', 'other.**', one-char-too-long '?', '?' standing for the dot, brackets incl. '[.]'); 5 name shapes (x, _x, __x__, __x, _x__), for a function in the module, a class and a method of that class (privacy of all four objects by an independent matcher; visibility through hidden ancestors); 3 spellings of the rule string (chosen by the list)",
             "thorough": "same with <= 4 rules and 8 name shapes (adds _x__, x_, __init__, _)"},
     outside="rule lists longer than the bound; cache behaviour across changes of the option list (cache is per name by design)",
 )
